@@ -85,7 +85,15 @@ class BMSMap(Map[BMSNoteList, BMSHitList, BMSHoldList, BMSBpmList], BMSMapMeta):
                     )
 
                     # [1:] Remove the #
-                    header[line_split[0][1:]] = line_split[1]
+                    # Command names are case-insensitive. The 2-character id
+                    # of #WAVxx / #BPMxx is kept as spelled, it is matched
+                    # with the ids in the note data.
+                    name = line_split[0][1:]
+                    if len(name) == 5 and name[:3].upper() in (b"WAV", b"BPM"):
+                        name = name[:3].upper() + name[3:]
+                    else:
+                        name = name.upper()
+                    header[name] = line_split[1]
 
                 elif len(line_split) == 1:
                     # ASCII for numbers
